@@ -565,3 +565,38 @@ func mentionsLetters(re *syntax.Regexp) bool {
 	}
 	return false
 }
+
+
+// funcValuesCreatedIn: the functions whose values f creates: its function literals (transitively) and, for a method
+// value `x.m`, the method m itself (go/ssa wraps it in a synthetic bound-method closure).
+func funcValuesCreatedIn(f *ssa.Function) []*ssa.Function {
+	seen := map[*ssa.Function]bool{}
+	var out []*ssa.Function
+	for _, g := range withClosures(f) {
+		if g != f && !seen[g] {
+			seen[g] = true
+			out = append(out, g)
+		}
+	}
+	for _, g := range withClosures(f) {
+		allInstrs(g, func(_ *ssa.BasicBlock, in ssa.Instruction) {
+			mc, ok := in.(*ssa.MakeClosure)
+			if !ok {
+				return
+			}
+			w, ok := mc.Fn.(*ssa.Function)
+			if !ok || w.Synthetic == "" || len(w.Blocks) == 0 {
+				return
+			}
+			allInstrs(w, func(_ *ssa.BasicBlock, win ssa.Instruction) {
+				if call, isCall := win.(ssa.CallInstruction); isCall {
+					if m := call.Common().StaticCallee(); m != nil && len(m.Blocks) > 0 && !seen[m] {
+						seen[m] = true
+						out = append(out, m)
+					}
+				}
+			})
+		})
+	}
+	return out
+}
